@@ -49,7 +49,10 @@ EmptyHist(r) ==
    lastApplied |-> [n \in NodeIds(r) |-> 0], inc |-> [n \in NodeIds(r) |-> 1],
    rresp |-> [n \in NodeIds(r) |-> {}], acked |-> {}, rejected |-> {}, responded |-> {},
    notifTerm |-> [n \in NodeIds(r) |-> 0], notif |-> {}, lostByReset |-> {}, hsLoss |-> FALSE, gapSeen |-> FALSE,
-   downView |-> [n \in NodeIds(r) |-> ND(r, n).view], initView |-> [n \in NodeIds(r) |-> ND(r, n).view]]
+   downView |-> [n \in NodeIds(r) |-> ND(r, n).view], initView |-> [n \in NodeIds(r) |-> ND(r, n).view],
+   leaseMs |-> r.cfg.lease_ms, sentAt |-> [m \in {} |-> 0],
+   ackSend |-> [n \in NodeIds(r) |-> [p \in NodeIds(r) |-> 0]],
+   ackedMax |-> 0, readFloor |-> [i \in {} |-> 0], readAt |-> [i \in {} |-> 0]]
 
 (***************************************************************************)
 (* History update from one record                                           *)
@@ -91,6 +94,14 @@ NewHist(hp, r) ==
         !.inc = [n \in NodeIds(r) |-> ND(r, n).inc],
         !.downView = [n \in NodeIds(r) |-> IF ND(r, n).up THEN ND(r, n).view ELSE @[n]],
         !.acked = @ \cup {cr[j].id : j \in {x \in 1..Len(cr) : cr[x].ok}},
+        !.sentAt = [m \in DOMAIN @ \cup {ae[j].mid : j \in 1..Len(ae)} |->
+                      IF m \in DOMAIN @ THEN @[m] ELSE r.st.clock],
+        !.readFloor = LET ci == Evs(r, "ClientInvoke")
+                          new == {ci[j].id : j \in {x \in 1..Len(ci) : ci[x].kind = "read"}}
+                      IN [i \in DOMAIN @ \cup new |-> IF i \in DOMAIN @ THEN @[i] ELSE hp.ackedMax],
+        !.readAt = LET ci == Evs(r, "ClientInvoke")
+                       new == {ci[j].id : j \in {x \in 1..Len(ci) : ci[x].kind = "read"}}
+                   IN [i \in DOMAIN @ \cup new |-> IF i \in DOMAIN @ THEN @[i] ELSE r.st.clock],
         !.responded = @ \cup {cr[j].id : j \in 1..Len(cr)}]
   IN FoldApplied(h1, Evs(r, "Applied"), 1)
 
@@ -365,11 +376,59 @@ Mon_C28(hp, rp, r) ==
      IF ND(r, n).view = hp.initView[n] THEN "view-reset-to-initial-config" ELSE "other", ToString(n)) :
      n \in {x \in UpNodes(r) : ~ND(rp, x).up /\ ND(r, x).view # hp.downView[x]}}
 
+
+(***************************************************************************)
+(* Reads: C11 (linearizable), C12 (lease)                                   *)
+(***************************************************************************)
+MaxApplied(r) == LET S == {ND(r, n).applied : n \in NodeIds(r)} IN CHOOSE m \in S : \A o \in S : m >= o
+ReadVal(c) == IF c.read = <<>> THEN "-" ELSE c.read[1][2]
+Mon_C11(hn, r) ==
+  LET cr == Evs(r, "ClientResp")
+  IN {V("C11", "LinearizableRead", r,
+        IF ND(r, cr[j].node).role = "L" /\ ND(r, cr[j].node).lease
+           /\ \E m \in Leaders(r) : ND(r, m).term > ND(r, cr[j].node).term
+        THEN "deposed-leader-with-valid-lease" ELSE CascadeCause(hn),
+        ToString(<<cr[j].id, cr[j].key, ReadVal(cr[j])>>)) :
+        j \in {x \in 1..Len(cr) : cr[x].kind = "read" /\ cr[x].policy = "lin" /\ cr[x].ok
+                 /\ cr[x].id \in DOMAIN hn.readFloor /\
+                 ~\E p \in hn.readFloor[cr[x].id]..MaxApplied(r) :
+                     KvGet(KvFold([k \in {} |-> ""], hn.appliedCmd, 1, p), cr[x].key) = ReadVal(cr[x])}}
+
+\* voters of leader n whose acknowledgement of a request sent at sigma is known to n, with tau < sigma + lease
+FreshAckers(hn, r, n) == {p \in Voters(r, n) : hn.ackSend[n][p] > 0 /\ r.st.clock < hn.ackSend[n][p] + hn.leaseMs}
+Mon_C12(hp, hn, rp, r) ==
+  LET cr == Evs(r, "ClientResp")
+      lr == {j \in 1..Len(cr) : cr[j].kind = "read" /\ cr[j].policy = "lease" /\ cr[j].ok}
+  IN {V("C12", "LeaseReadOnlyByLeader", r, "other", ToString(cr[j].node)) :
+        j \in {x \in lr : ND(r, cr[x].node).role # "L" /\ ~(ND(rp, cr[x].node).up /\ ND(rp, cr[x].node).role = "L")}}
+     \cup {V("C12", "LeaseBackedByFreshMajority", r,
+             \* a majority did acknowledge something in this leadership, only not recently enough: the lease the
+             \* leader holds was anchored at a later send than the one that was acknowledged
+             IF IsMajority(Cardinality({p \in Voters(r, cr[j].node) : hn.ackSend[cr[j].node][p] > 0}) + 1,
+                           Cardinality(Voters(r, cr[j].node)) + 1)
+             THEN "stale-ack-renews-lease-from-latest-send-ts" ELSE "other", ToString(<<cr[j].node, r.st.clock>>)) :
+        j \in {x \in lr : LET n == cr[x].node
+                              \* voters that acknowledged a request sent after this read was invoked
+                              \* (leadership confirmed after the invocation: as good as a read index)
+                              conf == {p \in Voters(r, n) : cr[x].id \in DOMAIN hn.readAt
+                                                             /\ hn.ackSend[n][p] >= hn.readAt[cr[x].id]}
+                          IN Voters(r, n) # {} /\
+                             ~IsMajority(Cardinality(FreshAckers(hn, r, n)) + 1, Cardinality(Voters(r, n)) + 1) /\
+                             ~IsMajority(Cardinality(conf) + 1, Cardinality(Voters(r, n)) + 1)}}
+     \cup {V("C12", "NoNewerLeaderWhileLeaseRead", r,
+             IF ND(r, cr[j].node).role = "L" /\ ND(r, cr[j].node).lease THEN "deposed-leader-with-valid-lease"
+             ELSE CascadeCause(hn), ToString(cr[j].node)) :
+        j \in {x \in lr : \E m \in Leaders(r) : m # cr[x].node /\ ND(r, m).term > ND(r, cr[x].node).term}}
+     \cup {V("C12", "StepDownRevokesLease", r, "other", ToString(n)) :
+        n \in {x \in UpNodes(r) : ND(r, x).role # "L" /\ ND(r, x).leaseAny
+                                  /\ ~(ND(rp, x).up /\ ND(rp, x).role # "L" /\ ND(rp, x).leaseAny)}}
+
 Monitors(hp, hn, rp, r) ==
   Mon_C01(hp, hn, r) \cup Mon_C02(hp, hn, rp, r) \cup Mon_C03(hn, rp, r) \cup Mon_C04(hn, rp, r)
   \cup Mon_C05(hp, hn, rp, r) \cup Mon_C06(hp, hn, rp, r) \cup Mon_C07(hn, rp, r) \cup Mon_C08(hn, rp, r)
   \cup Mon_C09(hn, rp, r) \cup Mon_Client(hp, hn, r) \cup Mon_C14(hn, r) \cup Mon_C31(hp, hn, r)
   \cup Mon_C26(hn, rp, r) \cup Mon_C27(hp, hn, rp, r) \cup Mon_C28(hp, rp, r)
+  \cup Mon_C11(hn, r) \cup Mon_C12(hp, hn, rp, r)
 
 (***************************************************************************)
 (* Layer 2: conformance of the observed step with the DECore operators.     *)
@@ -465,7 +524,21 @@ Next ==
                  cr  == Evs(r, "ClientResp")
                  hp3 == [hp2 EXCEPT !.rejected = @ \cup {cr[j].kind \o ":" \o cr[j].key \o ":" \o cr[j].val :
                                                          j \in {x \in 1..Len(cr) : RejClass(cr[x])}}]
-                 hn  == [NewHist(hp3, r) EXCEPT !.lostByReset = @ \cup LostByReset(rp, r),
+                 hn0 == NewHist(hp3, r)
+                 okw == {cr[j] : j \in {x \in 1..Len(cr) : cr[x].ok /\ cr[x].kind \in {"put", "del", "cas"}}}
+                 widx == {i \in DOMAIN hn0.appliedCmd : \E c \in okw :
+                            hn0.appliedCmd[i].op = c.kind /\ hn0.appliedCmd[i].key = c.key /\ hn0.appliedCmd[i].val = c.val}
+                 hn  == [hn0 EXCEPT
+                                                !.ackedMax = IF widx = {} THEN @
+                                                             ELSE Max(@, CHOOSE m \in widx : \A o \in widx : m >= o),
+                                                !.ackSend = [n \in DOMAIN @ |->
+                                                   IF ~ND(r, n).up \/ ND(r, n).role # "L" THEN [p \in DOMAIN @[n] |-> 0]
+                                                   ELSE IF r.a.a = "DeliverAR" /\ r.applied /\ r.a.to = n /\ Len(r.msgs) = 1
+                                                           /\ Len(Evs(r, "ARLost")) = 0 /\ r.msgs[1].kind = "ok"
+                                                           /\ r.msgs[1].t >= ND(rp, n).term /\ r.msgs[1].req \in DOMAIN hn0.sentAt
+                                                        THEN [@[n] EXCEPT ![r.a.from] = Max(@, hn0.sentAt[r.msgs[1].req])]
+                                                        ELSE @[n]],
+                                                !.lostByReset = @ \cup LostByReset(rp, r),
                                                 !.hsLoss = @ \/ HsLossNow(h, rp, r),
                                                 !.gapSeen = @ \/ \E n \in NodeIds(r) : ~Contiguous(ND(r, n).log)]
                  ln  == SelectSeq(Evs(r, "LeaderNotify"), LAMBDA e : e.leader # 0)
